@@ -498,6 +498,24 @@ def no_double_descent(F, res, rule="Q9"):
             if not c or "{closure" in c or sccof.get(parent(c)) != sccof[parent(p)]:
                 continue
             srcs = {s for s in (_container(d.origin_op(a, THROUGH), d) for a in t["args"]) if s}
+            if f.kind == "Closure":
+                # the first parameter of a closure is its environment: a captured variable is what it is in the enclosing
+                # function - a plain parameter or local there (`self`, `body`, a scope) is context handed to every call,
+                # not a child of the input; a captured field of a parameter is that child
+                mapped = set()
+                for root, st in srcs:
+                    if root != "arg1" or not st or isinstance(st[0], tuple) or not str(st[0]).isdigit():
+                        mapped.add((root, st))
+                        continue
+                    pf, po = FL.upvar_origin(F, p, int(st[0]))
+                    up = _container(po, FL.Defs(pf)) if pf is not None and po else None
+                    if up is not None:
+                        mapped.add(("up:" + up[0], tuple(up[1]) + tuple(st[1:])))
+                    elif len(st) > 1:
+                        mapped.add(("up:env%s" % st[0], tuple(st[1:])))
+                srcs = mapped
+                if not srcs:
+                    continue
             if srcs:
                 sites.append((b, t, srcs))
         if not sites:
